@@ -243,6 +243,9 @@ def type_tables(ctx):
                               'call:COTPdoGetMap': NONE, 'call:CORPdoGetMap': NONE, 'call:COTmrGetTicks': 0,
                               'wp->Flags': (sflag if old_sync else 0), 'wp->Flag': ((sflag | E_R) if old_sync else 0),
                               'wp->EvTmr': -1, 'wp->InTmr': -1}
+                    # the same record under its canonical spelling (no local alias for the element)
+                    for k_ in ('Flags', 'Flag', 'EvTmr', 'InTmr'):
+                        inputs['pdo[num].' + k_] = inputs['wp->' + k_]
                     trs = _run(m, f, inputs, filt=lambda k, fld: fld in (('CO_TPDO', 'Flags'), ('CO_RPDO', 'Flag'), ('CO_TPDO', 'Event'), ('CO_TPDO', 'Inhibit')))
                     site = '%s type=%d valid=%d previously-synchronous=%d' % (f, ty, valid, old_sync)
                     bad = None
@@ -478,6 +481,31 @@ def rpdo_layout(ctx):
             ctx.ob(P, 'RF1-rpdo-layout', f, site, 'one slot, width 2')
 
 
+def _mask_passthrough(m, call, ref):
+    """`mask = Helper(..., mask, ...)` where Helper is a stage extracted from the dispatch cascade: it returns the mask it was
+    given or 0 (the frame was claimed), i.e. it can only clear service bits, never set one"""
+    if call is None or call.k != 'call':
+        return False
+    nm = callee_name(call)
+    if nm is None or not m.is_new_helper(nm):
+        return False
+    fn = m.funcs[nm]
+    idx = [i for i, a in enumerate(call.kids[1:]) if strip(a) is not None and strip(a).k == 'ref' and strip(a).ref == ref]
+    prm = set(fn.params[i][3] for i in idx if i < len(fn.params))
+    if not prm:
+        return False
+    for n in walk(fn.body):
+        if n.k == 'bin' and n.op.endswith('=') and n.op not in ('==', '!=', '<=', '>='):
+            l = strip(n.kids[0])
+            if l.k == 'ref' and l.ref in prm and not (n.op == '=' and const_eval(n.kids[1]) == 0):
+                return False
+        if n.k == 'ret':
+            e = strip(n.kids[0]) if n.kids else None
+            if e is None or not (const_eval(e) == 0 or (e.k == 'ref' and e.ref in prm)):
+                return False
+    return True
+
+
 def _local_mask_gate(m, fname, nid):
     """gates on a local copy of the Allowed mask (CONodeProcess keeps it in `allowed`)"""
     out = []
@@ -504,7 +532,8 @@ def _local_mask_gate(m, fname, nid):
                                 for (pp, rhs, n) in flow.assigned_paths(node.x):
                                     if pp is not None and len(pp) == 1 and pp[0][1] == us.ref:
                                         r0 = strip(rhs) if rhs is not None else None
-                                        if not (r0 is not None and ((r0.k == 'mem' and r0.field == ('CO_NMT', 'Allowed')) or const_eval(r0) == 0)):
+                                        if not (r0 is not None and ((r0.k == 'mem' and r0.field == ('CO_NMT', 'Allowed')) or const_eval(r0) == 0
+                                                                    or _mask_passthrough(m, r0, us.ref))):
                                             okdef = False
                             if okdef and ((x.op in ('!=', '>')) == f.pol):
                                 out.append(mk)
